@@ -51,9 +51,9 @@ def SinkBrk (ops : SinkOps κ) (inpS : Bytes) (d d' : Nat) (x0 : Ctx κ) (sink' 
     ops.handleNonTag inpS ⟨x0.prevConsumed, ⟨a, e⟩, some (.text tt)⟩ x0.sink = (sink', .ok ())
 
 /-- the split run broke at the end of its input; `mw0` is the whole machine before the step (after its
-enter actions); `c0`, `x0`: the split machine's `Common` / context after its enter actions -/
+enter actions); `x0`: the split machine's context after its enter actions -/
 def BreakOut (tbl : Table) (fs : FlagMap) (ops : SinkOps κ) (inpS inpW : Bytes) (δ d : Nat)
-    (c0 : Common) (x0 : Ctx κ) (mw0 : M κ) (rs : M κ × Option Signal) : Prop :=
+    (x0 : Ctx κ) (mw0 : M κ) (rs : M κ × Option Signal) : Prop :=
   SPanic rs.2 ∨ ∃ c d' skip', rs.2 = some (.endOfInput c) ∧
     BCore tbl fs inpW (δ + c) d' skip' rs.1 mw0 ∧
     rs.1.x.sim = x0.sim ∧ rs.1.x.prevConsumed = x0.prevConsumed ∧ SinkBrk ops inpS d d' x0 rs.1.x.sink
@@ -271,41 +271,105 @@ section
 variable {env : Env κ} {inpS inpW : Bytes} {δ : Nat} {K : Nat → κ → κ → Prop}
 
 /-- the first comparison + look-ahead of a sequence arm -/
+def firstOf (inp : Bytes) (ch : Option UInt8) (e0 : UInt8) (es : List UInt8) (ic il : Bool) (np : Nat) : SeqMatch :=
+  match ch with
+  | some c0 => if seqCmp c0 e0 ic then matchSeqFrom inp il ic np 1 es else .mismatch
+  | none => if il then .mismatch else .needMore
+
 theorem first_sim (F : Frame inpS inpW δ) (ch : Option UInt8) (e0 : UInt8) (es : List UInt8) (ic il : Bool) (nps : Nat)
-    (hnps : 1 ≤ nps) (hchin : ch.isSome = true → nps ≤ inpS.length) (hil : il = true → Closed inpS inpW δ)
-    (hnone : ch = none → Closed inpS inpW δ ∨ il = false) :
-    ((match ch with
-        | some c0 => if seqCmp c0 e0 ic then matchSeqFrom inpW il ic (nps + δ) 1 es else SeqMatch.mismatch
-        | none => if il then SeqMatch.mismatch else SeqMatch.needMore) =
-      (match ch with
-        | some c0 => if seqCmp c0 e0 ic then matchSeqFrom inpS il ic nps 1 es else SeqMatch.mismatch
-        | none => if il then SeqMatch.mismatch else SeqMatch.needMore) ∧
-      ((match ch with
-        | some c0 => if seqCmp c0 e0 ic then matchSeqFrom inpS il ic nps 1 es else SeqMatch.mismatch
-        | none => if il then SeqMatch.mismatch else SeqMatch.needMore) = .matched → nps + es.length ≤ inpS.length)) ∨
-    ((match ch with
-        | some c0 => if seqCmp c0 e0 ic then matchSeqFrom inpS il ic nps 1 es else SeqMatch.mismatch
-        | none => if il then SeqMatch.mismatch else SeqMatch.needMore) = .needMore ∧ il = false) := by
+    (hchin : ch.isSome = true → nps ≤ inpS.length) (hil : il = true → Closed inpS inpW δ) :
+    (firstOf inpW ch e0 es ic il (nps + δ) = firstOf inpS ch e0 es ic il nps ∧
+      (firstOf inpS ch e0 es ic il nps = .matched → nps + es.length ≤ inpS.length)) ∨
+    (firstOf inpS ch e0 es ic il nps = .needMore ∧ ¬ Closed inpS inpW δ ∧ il = false) := by
+  unfold firstOf
   cases ch with
   | none =>
     simp only
-    cases il with
-    | true => exact Or.inl ⟨by simp, fun h => by simp at h⟩
-    | false => exact Or.inr ⟨by simp, rfl⟩
+    exact Or.inl ⟨trivial, fun h => by cases il <;> simp at h⟩
   | some c0 =>
     simp only
     by_cases hc : seqCmp c0 e0 ic = true
     · rw [if_pos hc, if_pos hc]
-      rcases matchSeq_sim F il ic hil nps es 1 (Nat.le_refl 1) with ⟨h1, h2⟩ | ⟨h3, _, h5⟩
+      rcases matchSeq_sim F il ic hil nps es 1 (Nat.le_refl 1) with ⟨h1, h2⟩ | ⟨h3, h4, h5⟩
       · refine Or.inl ⟨h1, fun hm => ?_⟩
         cases es with
         | nil => exact hchin rfl
         | cons e' es' =>
           have := h2 hm (by simp)
           omega
-      · exact Or.inr ⟨h3, h5⟩
+      · exact Or.inr ⟨h3, h4, h5⟩
     · rw [if_neg hc, if_neg hc]
       exact Or.inl ⟨rfl, fun h => by cases h⟩
+
+end
+
+section
+variable {env : Env κ} {inpS inpW : Bytes} {δ : Nat} {K : Nat → κ → κ → Prop}
+
+/-- `break_split`, packaged as a `BreakOut` -/
+theorem breakOut_of_split {fs : FlagMap} {st : StateId} {sd : StateDef} {d0 d : Nat} {sm : SeqMode} {ms mw mw0 : M κ}
+    (cx : StepCtx env.tbl fs st sd ms.c) (h : MRel δ d 0 (fs st).2.inStep sm ms mw) (hl : ms.c.isLast = false)
+    (hsm : sm = .none ∨ (sm = .inSeq ∧ hasSeq sd = true)) (hdebt : 0 < d → hasEoc sd = true)
+    (npw0 : Nat) (hnp : npw0 ≤ ms.c.nextPos - 1 + δ)
+    (hskip : 0 < ms.c.nextPos - 1 + δ - npw0 → ∃ nd, sd.memchr = some nd ∧ SkipOk nd inpW npw0 (ms.c.nextPos - 1 + δ - npw0))
+    (hc0 : mw0.c = { mw.c with nextPos := npw0 }) (hx0 : mw0.x = mw.x) (hr0 : mw0.r = (leaveSeq mw).r)
+    (x0 : Ctx κ) (hsim0 : ms.x.sim = x0.sim) (hpc0 : ms.x.prevConsumed = x0.prevConsumed)
+    (hsink : SinkBrk env.ops inpS d0 d x0 ms.x.sink) :
+    BreakOut env.tbl fs env.ops inpS inpW δ d0 x0 mw0 (breakOnEndOfInput inpS ms) := by
+  have hsm' : sm ≠ .stale := by
+    rcases hsm with h | ⟨h, _⟩ <;> rw [h] <;> intro hh <;> cases hh
+  rcases break_split (inpS := inpS) h rfl hl (fun g => cx.ok.sn2 g) hsm' npw0 hnp hc0 hx0 hr0 with hp | ⟨c, hsig, hbr, hx, hst, hent, hc1⟩
+  · exact Or.inl hp
+  · refine Or.inr ⟨c, d, ms.c.nextPos - 1 + δ - npw0, hsig, ⟨(if sm = .inSeq then .stale else .none), ?_, ?_⟩,
+      by rw [hx]; exact hsim0, by rw [hx]; exact hpc0, by rw [hx]; exact hsink⟩
+    · rw [cx.flagsOf hst hent]
+      rw [Ab.inStep_boundary cx.ok.p2] at hbr
+      exact hbr
+    · intro sd' hlook
+      rw [hst, cx.st_eq, cx.look] at hlook
+      cases hlook
+      refine ⟨?_, hdebt, fun hpos => ?_⟩
+      · rcases hsm with h | ⟨h, hs⟩
+        · left; rw [h]; rfl
+        · right; rw [h]; exact ⟨by simp, hs, by rw [hent]; exact cx.ent⟩
+      · obtain ⟨nd, h1, h2⟩ := hskip hpos
+        refine ⟨nd, h1, by rw [hent]; exact cx.ent, ?_⟩
+        rw [hc0]; exact h2
+
+end
+
+section
+variable {env : Env κ}
+
+theorem runSeqArms_seq (inp : Bytes) (ch : Option UInt8) (arm : Arm) (rest : List Arm) (m : M κ) (e0 : UInt8)
+    (es : List UInt8) (ic : Bool) (hp : arm.pat = .chSeq (e0 :: es) ic) :
+    runSeqArms env inp ch (arm :: rest) m =
+      match firstOf inp ch e0 es ic (enterSeq m).c.isLast (enterSeq m).c.nextPos with
+      | .needMore => .inl (breakOnEndOfInput inp (enterSeq m))
+      | .mismatch => runSeqArms env inp ch rest (leaveSeq (enterSeq m))
+      | .matched =>
+        .inl ((runBody env inp arm.body (leaveSeq { enterSeq m with c := { (enterSeq m).c with nextPos := (enterSeq m).c.nextPos + es.length } })).1,
+              (runBody env inp arm.body (leaveSeq { enterSeq m with c := { (enterSeq m).c with nextPos := (enterSeq m).c.nextPos + es.length } })).2.1) := by
+  simp only [runSeqArms, hp, firstOf]
+  cases ch <;> rfl
+
+theorem runSeqArms_seq_nil (inp : Bytes) (ch : Option UInt8) (arm : Arm) (rest : List Arm) (m : M κ) (ic : Bool)
+    (hp : arm.pat = .chSeq [] ic) :
+    runSeqArms env inp ch (arm :: rest) m = runSeqArms env inp ch rest (leaveSeq (enterSeq m)) := by
+  simp only [runSeqArms, hp]
+
+theorem runSeqArms_skip (inp : Bytes) (ch : Option UInt8) (arm : Arm) (rest : List Arm) (m : M κ)
+    (hp : isSeqPat arm.pat = false) :
+    runSeqArms env inp ch (arm :: rest) m = runSeqArms env inp ch rest m := by
+  simp only [runSeqArms]
+  split
+  · rename_i h; rw [h] at hp; cases hp
+  · rfl
+
+theorem enterSeq_c (m : M κ) : (enterSeq m).c = m.c := by obtain ⟨c, r, x⟩ := m; cases r <;> rfl
+theorem enterSeq_x (m : M κ) : (enterSeq m).x = m.x := by obtain ⟨c, r, x⟩ := m; cases r <;> rfl
+theorem leaveSeq_c (m : M κ) : (leaveSeq m).c = m.c := by obtain ⟨c, r, x⟩ := m; cases r <;> rfl
+theorem leaveSeq_x (m : M κ) : (leaveSeq m).x = m.x := by obtain ⟨c, r, x⟩ := m; cases r <;> rfl
 
 end
 
